@@ -269,6 +269,27 @@ func renameKeys(v *schema.V, key string) *schema.V {
 	return c
 }
 
+// emptyContainers returns a copy of v in which every array and map is present but empty.
+func emptyContainers(v *schema.V) *schema.V {
+	if v == nil {
+		return nil
+	}
+	c := v.Clone()
+	for n, fv := range c.Fields {
+		c.Fields[n] = emptyContainers(fv)
+	}
+	if c.Mem != nil {
+		c.Mem = emptyContainers(c.Mem)
+	}
+	switch v.T.Base().Kind {
+	case schema.Array:
+		c.Items, c.Nil = []*schema.V{}, false
+	case schema.Map:
+		c.Keys, c.Ent, c.Nil = nil, map[string]*schema.V{}, false
+	}
+	return c
+}
+
 func checkExclusion(w *schema.Type, spec [][]string, mode string, offset int) (kind, detail string) {
 	return checkExclusionOn(w, schema.Rich(w), spec, mode, offset)
 }
@@ -594,6 +615,45 @@ func partC07(a *hcli.Args, rep *report.Report, univName string, u *schema.Univer
 					}
 				}
 			}
+		}
+		// empty arrays / maps in front of excluded fields (the containers' own scopes must be left again)
+		if strings.Contains(n, "A") || strings.Contains(n, "M") || n == "RTop" || n == "RNestInc" {
+			se := rep.S("exclusion-empty-containers")
+			se.Bounds = "container-bearing schemas x every single-path spec and every pair of top-level field specs x the rich value with every array and map emptied x all modes"
+			val := emptyContainers(schema.Rich(w))
+			var especs [][][]string
+			for i := range cands {
+				especs = append(especs, [][]string{cands[i]})
+			}
+			var tops [][]string
+			for _, f := range w.AllFields() {
+				tops = append(tops, []string{f.Name})
+			}
+			for i := range tops {
+				for j := i + 1; j < len(tops); j++ {
+					especs = append(especs, [][]string{tops[i], tops[j]})
+				}
+			}
+			for _, spec := range especs {
+				item++
+				if !a.Mine(item) {
+					continue
+				}
+				for _, mode := range exclModes {
+					kind, detail := checkExclusionOn(w, val, spec, mode, 0)
+					se.Evaluations++
+					se.Transitions++
+					se.Traces++
+					if kind != "" {
+						rep.Fail(fmt.Sprintf("%s excl %s %s %s empty-containers spec=%s", a.Gen, mode, kind, w.Name, shapeOfSpec(spec)),
+							fmt.Sprintf("type %s value %s spec %v mode %s: %s", w.Name, val, specStrings(spec), mode, detail), nil)
+						se.Class("fail:" + kind)
+					} else {
+						se.Class("ok:" + mode)
+					}
+				}
+			}
+			se.States++
 		}
 		// map keys that look like protocol markers or wildcards, under every single-path spec
 		if strings.Contains(n, "M") {
